@@ -205,9 +205,31 @@ def c13():
     ]
 
 
+def c16():
+    return [
+        R("c16-unnormalised-weights", "C16", MCMC, "    wsamples = wsamples / wsamples.sum()\n", "", "C16-W"),
+        R("c16-mh-weights-wrong-len", "C16", MCMC, "    weights = torch.zeros((samples.shape[0],), dtype=dtype, device=device) + (1. / samples.shape[0])",
+          "    weights = torch.zeros((samples.shape[0],), dtype=dtype, device=device) + (1. / nburnout)", "C16-W"),
+        R("c16-mh-phase2-from-x0", "C16", MCMC, "    samples = _mh_sample(logpfcn, x, pparams, nsamples, step_size, True)", "    samples = _mh_sample(logpfcn, x0, pparams, nsamples, step_size, True)", ["C16-S", "C16-U"]),
+        R("c16-mh-counts-swapped", "C16", MCMC, "    x, dtype, device = _mh_sample(logpfcn, x0, pparams, nburnout, step_size, False)\n    samples = _mh_sample(logpfcn, x, pparams, nsamples, step_size, True)",
+          "    x, dtype, device = _mh_sample(logpfcn, x0, pparams, nsamples, step_size, False)\n    samples = _mh_sample(logpfcn, x, pparams, nburnout, step_size, True)", "C16-S"),
+        R("c16-loop-one-short", "C16", MCMC, "    for i in range(nsamples):\n        x = custom_step(x, *pparams)", "    for i in range(nsamples - 1):\n        x = custom_step(x, *pparams)", "C16-N"),
+        R("c16-store-shifted", "C16", MCMC, "        if collect_samples:\n            samples[i] = x\n\n    # return the samples", "        if collect_samples:\n            samples[i - 1] = x\n\n    # return the samples", "C16-N"),
+        R("c16-integrate-misaligned", "C16", MCQ, "    for x, w in zip(xsamples, wsamples):\n        res = res + ffcn(x, *fparams) * w", "    for x, w in zip(xsamples, wsamples.flip(0)):\n        res = res + ffcn(x, *fparams) * w", "C16-W"),
+        R("c16-forward-always-samples", "C16", MCQ, "        if xsamples is None:\n            methods = {", "        if True:\n            methods = {", "C16-B"),
+        R("c16-backward-drops-weights", "C16", MCQ, "                           wsamples=wsamples,\n", "                           wsamples=None,\n", "C16-B"),
+        R("c16-grad-slot", "C16", MCQ, "        return (None, None, None, None, None, None, None, None, None, None, None,\n                *dLdtf, *dLdtp)",
+          "        return (None, None, grad_epf, None, None, None, None, None, None, None, None,\n                *dLdtf, *dLdtp)", "AC2"),
+        R("c16-count-slot", "C16", MCQ, "    nf_objparams = len(fobjparams)", "    nf_objparams = len(pobjparams)", "AC6"),
+        R("c16-segments-swapped", "C16", MCQ, "        return _MCQuad.apply(pure_ffcn, pure_logpfcn, x0, xsamples, wsamples,\n                             method, fwd_options, bck_options,\n                             nfparams, nf_objparams, npparams, *fparams, *fobjparams, *pparams, *pobjparams)",
+          "        return _MCQuad.apply(pure_ffcn, pure_logpfcn, x0, xsamples, wsamples,\n                             method, fwd_options, bck_options,\n                             nfparams, nf_objparams, npparams, *fparams, *pparams, *fobjparams, *pobjparams)", "AC6"),
+        R("c16-create-graph-outer", "C16", MCQ, "            local_grad_enabled = torch.is_grad_enabled()", "            local_grad_enabled = grad_enabled and False", "AC3"),
+    ]
+
+
 def all_mutants():
     ms = []
-    for f in (defects_back, c01, c02, c03, c04, c08, c13):
+    for f in (defects_back, c01, c02, c03, c04, c08, c13, c16):
         ms += f()
     import importlib
     try:
